@@ -48,12 +48,32 @@ pub enum Op {
 
 pub struct C12 {
     pub keys: Keys,
+    /// "C12", or "C15": the same harness with histories centred on download policies (nested prefix
+    /// filters, keys around them) and on entries that arrive inside reconciliation messages
+    focus: &'static str,
 }
 
 impl C12 {
     pub fn new() -> Self {
-        C12 { keys: Keys::new(1, 3) }
+        C12 { keys: Keys::new(1, 3), focus: "C12" }
     }
+    pub fn policies() -> Self {
+        C12 { keys: Keys::new(1, 3), focus: "C15" }
+    }
+}
+
+/// keys around nested prefixes: a key can start with the shorter filter but sort after the longer one
+fn policy_key(rng: &mut Rng) -> Vec<u8> {
+    rng.pick(&[&b""[..], b"a", b"ab", b"abc", b"abd", b"ac", b"ad", b"b", b"ba", b"aa", b"a\xff", b"ab\x00"]).to_vec()
+}
+
+fn nested_policy(rng: &mut Rng) -> Pol {
+    let mut filters: Vec<(bool, Vec<u8>)> = vec![];
+    for _ in 0..rng.range(1, 4) {
+        // (exact?, bytes)
+        filters.push((rng.chance(1, 4), rng.pick(&[&b""[..], b"a", b"ab", b"abc", b"ac", b"b"]).to_vec()));
+    }
+    Pol { everything: rng.chance(1, 2), filters }
 }
 
 fn status_of(n: u8) -> ContentStatus {
@@ -84,7 +104,10 @@ pub fn event_tok(ev: &Event, tok: &dyn Fn(&SignedEntry) -> String) -> String {
 impl Property for C12 {
     type Op = Op;
     fn id(&self) -> &'static str {
-        "C12"
+        self.focus
+    }
+    fn case_prefix(&self) -> &'static str {
+        if self.focus == "C15" { "events-" } else { "" }
     }
     fn parallel(&self) -> bool {
         false // the store actor runs on its own thread: the clock hook has to be process-global
@@ -128,6 +151,29 @@ impl Property for C12 {
         ]
     }
     fn generate(&self, rng: &mut Rng, _i: usize, thorough: bool) -> Vec<Op> {
+        if self.focus == "C15" {
+            // policies with nested prefix / exact filters; entries mostly inside reconciliation messages, some
+            // of them obsolete (an earlier write at the same key is newer), so that applied entries follow
+            // entries that are not applied
+            let mut ops = vec![Op::Subscribe { s: 0 }, Op::Policy { pol: nested_policy(rng) }];
+            for _ in 0..rng.range(3, if thorough { 24 } else { 12 }) {
+                let a = rng.below(3);
+                let ts = *rng.pick(&[5u64, 9, 10, 11, 20]);
+                ops.push(match rng.below(10) {
+                    0 | 1 => Op::Policy { pol: if rng.chance(1, 3) { gen_pol(rng) } else { nested_policy(rng) } },
+                    2 => Op::Local { a, key: policy_key(rng), c: rng.below(3), ts: 20 },
+                    3 | 4 => Op::Remote { a, key: policy_key(rng), c: Some(rng.below(3)), ts, peer: rng.below(3) as u8, status: rng.below(3) as u8, bad: false },
+                    _ => {
+                        let n = rng.range(2, 5);
+                        Op::Msg {
+                            entries: (0..n).map(|_| (rng.below(3), policy_key(rng), if rng.chance(1, 8) { None } else { Some(rng.below(3)) }, *rng.pick(&[5u64, 9, 10, 11, 20]), rng.below(3) as u8, rng.chance(1, 10))).collect(),
+                            peer: rng.below(3) as u8,
+                        }
+                    }
+                });
+            }
+            return ops;
+        }
         let mut ops = vec![];
         let read_only = rng.chance(1, 5);
         if read_only {
